@@ -101,4 +101,32 @@ theorem insertAt_length (buf : List Item) (p : Nat) (it : Item) (hp : p ≤ buf.
     (insertAt buf p it).length = buf.length + 1 := by
   unfold insertAt; simp; omega
 
+/-- a list split at `p` whose prefix satisfies `P` and whose suffix does not is split by `filter`. -/
+theorem filter_split {l : List Item} {p : Nat} (P : Item → Bool)
+    (h1 : ∀ x ∈ l.take p, P x = true) (h2 : ∀ x ∈ l.drop p, P x = false) :
+    l.filter P = l.take p ∧ l.filter (fun x => !P x) = l.drop p := by
+  have hl : l = l.take p ++ l.drop p := (List.take_append_drop p l).symm
+  constructor
+  · conv => lhs; rw [hl]
+    rw [List.filter_append, List.filter_eq_self.mpr h1, List.filter_eq_nil_iff.mpr, List.append_nil]
+    intro x hx; simp [h2 x hx]
+  · conv => lhs; rw [hl]
+    rw [List.filter_append, List.filter_eq_nil_iff.mpr, List.nil_append, List.filter_eq_self.mpr]
+    · intro x hx; simp [h2 x hx]
+    · intro x hx; simp [h1 x hx]
+
+/-- On a sorted buffer the insertion point of `search` separates the rounds `≤ r` from the rounds `> r`. -/
+theorem search_split {buf : List Item} (hs : Sorted buf) (r : Int) :
+    buf.filter (fun x => decide (x.round ≤ r)) = buf.take (search buf r) ∧
+    buf.filter (fun x => !decide (x.round ≤ r)) = buf.drop (search buf r) := by
+  obtain ⟨_, hlo, hhi⟩ := search_spec hs r
+  apply filter_split
+  · intro x hx
+    obtain ⟨i, hip, _, rfl⟩ := mem_take_getD hx
+    exact decide_eq_true (hlo i hip)
+  · intro x hx
+    obtain ⟨i, hpi, hil, rfl⟩ := mem_drop_getD hx
+    have := hhi i hpi hil
+    exact decide_eq_false (by omega)
+
 end ZChain.OrderBuffer
